@@ -14,6 +14,12 @@ EXTRA = {  # seeds that other checks should see as well
     "C07-B": ["C08"], "C10-A": ["C07"], "C12-A": ["C05"], "C13-A": ["C12", "C02"], "C03-A": ["C17", "C04"], "C03-B": ["C04"],
     "C11-B": ["C15"], "C01-C": ["C07", "C10"], "C04-C": ["C05", "C01"], "C05-D": ["C07"], "C07-C": ["C08"], "C13-C": ["C01", "C12"],
     "C12-C": ["C01"], "C18-C": ["C16"], "C16-C": ["C18"], "C02-C": ["C05", "C12"], "C02-D": ["C18"], "C08-C": ["C07"], "C15-B": ["C11"], "C01-A": ["C05"], "REVERT-H1_corrfunc_to_hdf_names": ["C03"],
+    # round 3
+    "C01-F": ["C10"], "C02-E": ["C16", "C18"], "C05-F": ["C07"], "C08-E": ["C09"], "C12-E": ["C09"], "C10-E": ["C05", "C07"], "C10-F": ["C07"],
+    "C07-F": ["C10"], "C04-E": ["C17"],
+    # round 4
+    "C01-G": ["C07", "C15"], "C01-H": ["C07", "C08"], "C04-G": ["C11"], "C11-G": ["C15"], "C12-H": ["C02"], "C13-G": ["C01", "C05"],
+    "C13-H": ["C02"], "C18-H": ["C09"], "C03-H": ["C05"], "C05-H": ["C12"],
 }
 
 
@@ -43,7 +49,7 @@ def main():
     names = sorted(d.name for d in SEEDED.iterdir() if (d / "patch.diff").exists())
     if len(sys.argv) > 1:
         names = [n for n in names if any(n.startswith(a) for a in sys.argv[1:])]
-    with ThreadPoolExecutor(max_workers=3) as ex:
+    with ThreadPoolExecutor(max_workers=int(os.environ.get("SEED_MATRIX_JOBS", "3"))) as ex:
         rows = list(ex.map(run, names))
     lines = ["# Seeded defects x checks", "", "| seed | property | check verdicts | first keys |", "|---|---|---|---|"]
     for name, prop, res, keys in rows:
